@@ -46,11 +46,18 @@ TRUSTED_BASE = ["Lean Float = IEEE binary64 with the same + - * / and conversion
                 "harness deep-copies every operand (table text round trip) before re-weighting and combining (C08 aliasing)"]
 ASSUMPTIONS = ["weights and sums below 2^53", "amd64: int(NaN) = -2^63 (only reachable outside the judged domain)",
                "inputs are ASCII"]
-PARTIAL = ["optimize_compromise_never_rare is proved against an abstract optimizer that emits only codons of positive "
-           "weight in the table it is given (C07's optimize_threshold states this of the model of codon.Optimize; the two "
-           "are not yet linked in one Lean statement); the judge checks the clause on the real codon.Optimize output",
-           "the +/-1 tolerance between float64 and exact shares is tested (classes ending in 'fx' count the cases where "
-           "they differ), not proved"]
+PARTIAL = ["EVERY numeric theorem (compromise_weight, compromise_mean, compromise_zero_below, compromise_never_rare, "
+           "optimize_compromise_never_rare*, compromise_symm, compromise_rejects) is about the EXACT model (rational cut-off, "
+           "shares floor(10000 w / total)); the code is compared with the float64 instance of the same function. The step "
+           "between the two instances is TESTED, not proved: the judge accepts exactly the weights the rule yields for share "
+           "candidates {floor, floor-1 when 10000 w/total is an integer other than 0 and 10000} and cut-off candidates "
+           "{floor(10000c), +1 when 10000c is within 1e-9 below an integer} (Spec shareCands / Driver cutCands); classes ending "
+           "in 'fx' count the cases where float64 and exact results differ. Proved for EVERY arithmetic (so also float64, given "
+           "commutative float addition): compromise_keeps_code, compromise_rejects_any, compromise_symm_any",
+           "optimize_compromise_never_rare_emits links the clause to C07's model of codon.Optimize (Emits); the draw-level "
+           "behaviour of the real weighted chooser is C07's correspondence, here the judge checks the clause on the real "
+           "codon.Optimize output and that Optimize errs exactly when a residue has no codon above the 10 % share"]
+PROOF_MODULES = ["PolyVerif.Props.C18", "PolyVerif.Props.C18Optimize"]
 TIMEOUT_MS = 30000
 
 
@@ -99,9 +106,14 @@ def ulps(x):
 
 
 def cut_list(r, sh1, sh2):
-    cs = [r.choice([-1.0, -0.5, -0.25]), r.choice([1.25, 1.5, 2.0]), r.choice([0.25, 0.5, 0.75, 0.1, 0.2, 0.3, 0.05, 0.01])]
+    cs = [0.0, 1.0, r.choice([-1.0, -0.5, -0.25]), r.choice([1.25, 1.5, 2.0]), r.choice([0.25, 0.5, 0.75, 0.1, 0.2, 0.3]),
+          r.choice([0.05, 0.01, 0.02, 0.001])]
     cs += r.sample(ulps(0.0) + [-0.0, 5e-324, -5e-324, 1e-5, 0.0001, 0.00009999], 3)
     cs += r.sample(ulps(1.0) + [0.9999, 0.99999999], 2)
+    low = [x for x in sh1 + sh2 if 0 < x < 1]
+    if low:
+        cs.append(min(low))            # the largest cut-off at which nothing is zeroed: Optimize can still encode everything
+        cs.append(min(low) / 2)
     for sh in (sh1, sh2):
         pos = [x for x in sh if 0 < x < 1] or [0.5]
         x = r.choice(pos)
@@ -111,6 +123,38 @@ def cut_list(r, sh1, sh2):
         cs.append(math.floor(y * 10000) / 10000)
     cs.append(r.uniform(-1, 2))
     return cs
+
+
+def raw_table(r, code, maxw, starts, stops, zero_frac=0.1):
+    """literal table over `code`: amino acids and codons in random order, weights up to maxw, every amino acid occurs"""
+    by = {}
+    for c, a in zip(CODONS, code):
+        by.setdefault(a, []).append(c)
+    aas = list(by.items())
+    r.shuffle(aas)
+    parts = []
+    for a, cs in aas:
+        cs = list(cs); r.shuffle(cs)
+        ws = [0 if r.random() < zero_frac else r.randint(1, maxw) for _ in cs]
+        if sum(ws) == 0:
+            ws[r.randrange(len(ws))] = r.randint(1, maxw)
+        if r.random() < 0.15:                      # shares that are exact integers on the 10000 scale
+            base = r.choice([1, 3, 7, 125, 10 ** 5])
+            ws = [base * r.choice([0, 1, 1, 2, 3, 4, 5]) for _ in cs]
+            if sum(ws) == 0: ws[0] = base
+        parts.append("%s:%s" % (a, ",".join("%s=%d" % (c, w) for c, w in zip(cs, ws))))
+    return "%s/%s/%s" % (",".join(starts), ",".join(stops), ";".join(parts))
+
+
+def raw_shares(text):
+    out = []
+    for aa in text.split("/")[2].split(";"):
+        ws = [int(x.split("=")[1]) for x in aa.split(":")[1].split(",")]
+        out += [w / sum(ws) for w in ws]
+    return out
+
+
+SAME_CODE_IDS = [(1, 11), (11, 1), (27, 28), (28, 27)]
 
 
 def protein(r, n):
@@ -134,6 +178,11 @@ RAW = [
     ("TTG/TAA/F:TTT=1,TTC=2,TTA=0", "TTG/TAA/F:TTT=3333,TTC=3333,TTA=3334"),
     ("TTG/TAA/F:TTT=1,TTC=1,TTA=1", "TTG/TAA/F:TTT=1,TTC=1,TTA=1"),
     ("TTG/TAA/F:TTT=1,TTC=2", "TTG/TAA/F:TTT=2,TTC=1;F:TTT=5,TTC=5"),
+    # shares exactly 0 / 5000 / 10000 at cut-offs 0, 0.5 and 1: the comparison at the cut-off must be strict
+    ("ATG/TAA/F:TTT=1,TTC=1;M:ATG=5;L:TTA=0,TTG=3", "ATG/TAA/F:TTT=0,TTC=4;M:ATG=1;L:TTG=2,TTA=2"),
+    ("ATG/TAA/F:TTT=2,TTC=2;M:ATG=1", "GTG/TGA/M:ATG=9;F:TTC=7,TTT=7"),
+    ("ATG/TAA/F:TTT=0,TTC=6;W:TGG=2", "ATG/TAA/F:TTT=0,TTC=1;W:TGG=8"),
+    ("ATG/TAA/F:TTT=3,TTC=7;L:TTA=1,TTG=1,CTT=2", "ATG/TAA/F:TTT=3,TTC=7;L:TTA=2,TTG=1,CTT=1"),
 ]
 
 
@@ -143,8 +192,9 @@ def cases(seed, tier):
     special = ",".join(bits(x) for x in [-1.0, -0.5, 0.0, 0.1, 0.25, 0.3, 1 / 3, 0.5, 2 / 3, 0.75, 1.0, 1.5, 2.0,
                                            float("nan"), float("inf"), -float("inf"), 5e-324, 0.0001, 0.3333])
     for (a, b) in RAW:
-        yield ["pair", "raw:" + a, "raw:" + b, special, "FFL"]
-    reps = 40 if tier == "quick" else 120
+        yield ["pair", "raw:" + a, "raw:" + b, special, "FFLMW"[:3] if "M:" not in a else "FMFL"]
+        yield ["pair", "raw:" + a, "raw:" + b, ",".join(bits(x) for x in [0.0, 1.0, 0.5, 0.25, 0.3, 0.7, 0.1]), "FM" if "M:" in a else "FF"]
+    reps = 16 if tier == "quick" else 100
     for rep in range(reps):
         for d in ids:
             code = CODES[d]
@@ -154,6 +204,31 @@ def cases(seed, tier):
             s2 = coding_all(r, code, n2, r.choice([1, 3, 6]), r.choice([0, 0, 0.2, 0.5]))
             cs = cut_list(r, shares(code, s1), shares(code, s2))
             yield ["pair", "id:%d:%s" % (d, s1), "id:%d:%s" % (d, s2), ",".join(bits(c) for c in cs), protein(r, r.randint(1, 40))]
+        # operands from DIFFERENT default ids over the same code: different start codons, and (built from separate
+        # Go maps) different amino-acid order
+        for (d1, d2) in SAME_CODE_IDS:
+            code = CODES[d1]
+            s1 = coding_all(r, code, r.choice([0, 100, 3000]), r.choice([1, 3, 6]), r.choice([0, 0.2, 0.5]))
+            s2 = coding_all(r, code, r.choice([0, 100, 3000]), r.choice([1, 3, 6]), r.choice([0, 0.2, 0.5]))
+            cs = cut_list(r, shares(code, s1), shares(code, s2))
+            yield ["pair", "id:%d:%s" % (d1, s1), "id:%d:%s" % (d2, s2), ",".join(bits(c) for c in cs), protein(r, r.randint(1, 40))]
+        # literal tables: random order of amino acids and of codons, different start / stop lists, weights up to 10^6
+        for _ in range(6):
+            d = r.choice(ids)
+            code = CODES[d]
+            mw = r.choice([5, 100, 10 ** 4, 10 ** 6, 10 ** 6])
+            a = raw_table(r, code, mw, ["ATG", "GTG"], ["TAA"])
+            b = raw_table(r, code, r.choice([5, 10 ** 6]), ["TTG"], ["TGA", "TAG"])
+            cs = cut_list(r, raw_shares(a), raw_shares(b))
+            yield ["pair", "raw:" + a, "raw:" + b, ",".join(bits(c) for c in cs), protein(r, r.randint(1, 40))]
+    # a few genome-sized sequences (weights of 10^4..10^5 from the real re-weighting path)
+    for _ in range(2 if tier == "quick" else 12):
+        d = r.choice(ids)
+        code = CODES[d]
+        s1 = coding_all(r, code, 30000, 3, 0)
+        s2 = coding_all(r, code, 30000, 6, 0.2)
+        cs = cut_list(r, shares(code, s1), shares(code, s2))
+        yield ["pair", "id:%d:%s" % (d, s1), "id:%d:%s" % (d, s2), ",".join(bits(c) for c in cs), protein(r, 30)]
     # outside the domain: different codes (panic path or silently misaligned), amino acids missing (NaN shares)
     for _ in range(30 if tier == "quick" else 300):
         d1, d2 = r.choice(ids), r.choice(ids)
@@ -161,7 +236,10 @@ def cases(seed, tier):
         s2 = coding_all(r, CODES[d2], r.choice([0, 30, 300]), 3, 0.3)
         if r.random() < 0.5:
             s1 = randword(r, "ACGT", r.choice([0, 3, 9, 30, 90]))
-        cs = [r.choice([0.0, 0.1, 0.5, 1.0, -0.1, 1.1, 5e-324]) for _ in range(4)]
+        # in-range cut-offs: correspondence drift only; out-of-range cut-offs alone: the rejection clause is judged
+        cs = [r.choice([0.0, 0.1, 0.5, 1.0, 5e-324]) for _ in range(4)]
+        yield ["pair", "id:%d:%s" % (d1, s1), "id:%d:%s" % (d2, s2), ",".join(bits(c) for c in cs), protein(r, 10)]
+        cs = [r.choice([-0.1, 1.1, -5e-324, 2.0, -1.0]) for _ in range(3)]
         yield ["pair", "id:%d:%s" % (d1, s1), "id:%d:%s" % (d2, s2), ",".join(bits(c) for c in cs), protein(r, 10)]
 
 
